@@ -241,6 +241,7 @@ func runClientHs(c *cliCase) (obs cliObs) {
 	readerDone := make(chan struct{})
 	go func() {
 		defer close(readerDone)
+		defer pc.Close() // the client ended the stream: the server side closes too (lets a lingering close finish)
 		peer.readLoop(func(m map[string]interface{}, enc string) {
 			if _, ok := m["state"]; !ok {
 				log.add(map[string]interface{}{"e": "emit-other"})
